@@ -60,3 +60,32 @@ Theorem C03_arc_full_sync_listener_ring_invariant :
   forall N M, 0 < N -> forall mevs i, FInv N (MFS.rings (fold_left (MultiFSProps.mexec N M) mevs (MFS.minit M)) i).
 Proof. intros N M HN. exact (MultiFSProps.listener_ring_invariant N M HN). Qed.
 Print Assumptions C03_arc_full_sync_listener_ring_invariant.
+
+(* fan-out completeness on the arc / full-sync channel (Chan/FanOutFS.v, the same invariant as for arc / atomic): from any state in which
+   nobody is in an operation and every listener's ring satisfies the full-sync ring invariant, for EVERY interleaving of any number of
+   producers, pollers and drivers in which no listener is created or removed, a send that reported success has published its event
+   into the ring of every listener listed in used_streams before the first sentinel. *)
+From RM Require FanOutFS.
+Theorem C03_arc_full_sync_every_accepted_event_reaches_every_listener :
+  forall N M, 0 < N -> forall s0 mevs,
+    (forall t, MFS.mthr s0 t = MIdle) -> (forall t i, fthr (MFS.rings s0 i) t = FIdle) -> (forall t v, ~ In (t, MSendOk v) (MFS.mlog s0)) ->
+    (forall i, FInv N (MFS.rings s0 i)) ->
+    Forall (fun e => FanOutFS.steady_ev e = true) mevs ->
+    let s := fold_left (MultiFSProps.mexec N M) mevs s0 in
+    forall t v, In (t, MSendOk v) (MFS.mlog s) ->
+    exists j, (j <= M)%nat /\ (j = M \/ usedarr (MFS.mx s0) j = MAXID) /\
+      forall j', (j' < j)%nat -> usedarr (MFS.mx s0) j' <> MAXID /\
+                                 In v (fpublished (MFS.rings s (Z.to_nat (usedarr (MFS.mx s0) j')))).
+Proof.
+  intros N M HN s0 mevs Hi Hr Hl Hf Hs.
+  apply (FanOutFS.fanout_complete_published N M (usedarr (MFS.mx s0)) HN s0 mevs); [|exact Hf|exact Hs].
+  apply FanOutFS.fo_base; auto.
+Qed.
+Print Assumptions C03_arc_full_sync_every_accepted_event_reaches_every_listener.
+
+(* non-vacuity: two producers and two driven listeners on the full-sync kind, interleaved inside the fan-out loops *)
+Example C03_arc_full_sync_nonvacuous :
+  let progs := [[MoCreate; MoCreate; MoSend 1; MoSend 2]; [MoSend 10]; [MoDrive 0]; [MoDrive 1]] in
+  let s := fst (MFS.mrun 8 idz 2 (MFS.minit 2) (fun t => nth t progs []) (repeat 0 6 ++ [1;1;0;0;1;2;3;0;1;1;3;2] ++ concat (repeat [0;1;2;3] 40))%nat) in
+  (yielded_of (flog (MFS.rings s 0%nat)), yielded_of (flog (MFS.rings s 1%nat))) = ([1; 10; 2], [10; 1; 2]).
+Proof. vm_compute. reflexivity. Qed.
